@@ -3,6 +3,20 @@
   "Redactions" sections of the Matrix room version specifications
   (https://spec.matrix.org/v1.11/rooms/v1/#redactions … /rooms/v11/#redactions).
   This file does not mention the code's `RedactionRules` booleans.
+
+  Readings adopted (places where the room version pages leave a choice and this file follows what
+  the implementation does, so that the theorems of `Props/C04.lean` say "the code does the spec
+  under these readings"; each is a recorded reading, not a consequence of the specification text):
+   R1. `contentEntry`, v11 `m.room.member`: the spec says that of `third_party_invite` only the
+       `signed` key is kept. When the `third_party_invite` object has no `signed` key the narrowed
+       object would be `{}`; this file (like the code) then drops `third_party_invite` altogether
+       rather than keeping an empty object.
+   R2. `contentEntry`, same place: when `third_party_invite` is not a JSON object there is nothing
+       to narrow; this file answers `none` (entry removed). The code does not remove it: it
+       *fails* (`tpiNotObject`), and `redactContent_eq_spec` is stated for successful redactions
+       only, so this branch of the spec function is never compared with the code. The failing
+       inputs are characterised by `redactContent_error_iff` / `redact_error_iff_input`.
+   R3. `redactedContent` keeps the entries in the object's own order (a `BTreeMap` has no other).
 -/
 import RumaModel.Model.Json
 namespace Ruma.Spec.Redaction
